@@ -18,7 +18,7 @@ import (
 // records it in a journal (in child-process mode appended to a file and fsynced per call) and
 // keeps (height, hash) of what it has committed. Its uncommitted execution is volatile.
 //
-// Journal tokens: I (InitChain), B<h> (BeginBlock header height), T<id> (DeliverTx), E<h>
+// Journal tokens: S<h> (restored from its own snapshot at height h; in-process streams only), I (InitChain), B<h> (BeginBlock header height), T<id> (DeliverTx), E<h>
 // (EndBlock), C (Commit), R (process restart marker).
 //
 // Transactions are ASCII "t<id>". id%10==7: the application answers EndBlock with a voting-power
@@ -175,7 +175,6 @@ func (a *recApp) Crash() {
 func (a *recApp) Rollback(j int) {
 	a.mu.Lock()
 	defer a.mu.Unlock()
-	a.record("R")
 	nh := len(a.hashLog) - j
 	if nh < 0 {
 		nh = 0
@@ -188,6 +187,8 @@ func (a *recApp) Rollback(j int) {
 		a.hash = a.hashLog[nh-1]
 		a.height = a.hgtLog[nh-1]
 	}
+	a.journal = append(a.journal, "S"+strconv.FormatInt(a.height, 10))
+	a.pend = nil
 }
 
 func (a *recApp) Info(req abci.RequestInfo) abci.ResponseInfo {
@@ -318,6 +319,9 @@ func journalCheckIH(j []string, chain func(h int64) ([]int, bool), ih int64) (co
 				return fail("InitChain inside an open block execution")
 			}
 		case tok == "R":
+			open = nil
+		case tok[0] == 'S': // restored from an older snapshot of itself at this height
+			committed, _ = strconv.ParseInt(tok[1:], 10, 64)
 			open = nil
 		case tok[0] == 'B':
 			h, _ := strconv.ParseInt(tok[1:], 10, 64)
